@@ -115,6 +115,19 @@ CLAIMS = {
          "routed to either: a store object holds no session state), each result compared with the store's Coq model AND with the abstract map under the store's liveness rule (well-formed values for "
          'Redis); ~150 concurrent histories (3-4 goroutines x 4-5 operations) of the real memory store for which the harness searches a linearization and Coq verifies it (permutation, real-time '
          'order, sequential replay on the memory model gives the observed results).'},
+    'C09': {'note': 'Trusted: as C01, plus the gate-based scheduler of the harness. Known findings (not small to repair): stale refresh write (memory, Redis), stale callback write (memory). Any other way of '
+         'surviving a logout is reported as a violation.',
+ 'technique': 'Coq proof over ALL schedules at effect granularity (merged traces of complete runs, store answers constrained by the session map): logout finality holds in every execution without a '
+              'stale write (induction along the global order with the proved trace shapes); the unrestricted statement is refuted by a machine-checked witness execution; sequential finality by '
+              'history invariant; correspondence: exhaustive enumeration of the interleavings of real goroutines held at store/IdP gates, replayed per thread in lock-step and judged on the global '
+              'order',
+ 'text': 'Machine-checked: C09_logout_response, C09_sequential_final, C09_concurrent_partial (any number of concurrent checks, every interleaving: if no check that performed an effect before the '
+         "logout's removal writes under the session id after it, no check with that cookie that acts after the removal is OK), C09_concurrent_final_refuted (a concrete execution - refresh in flight "
+         '- in which the logout is answered and the check is then answered OK and the session exists again; the same schedule is reproduced on the real code every run and reported as KNOWN-FINDING). '
+         'Tie to the code on every run: every interleaving of a logout with one concurrent check (fresh / expired-refreshable / expired-no-refresh / mid-login callback / pending; 2-5 schedules each) '
+         'and up to 150 per triple with two concurrent checks, on memory and Redis, real goroutines stopped at every store call and token-endpoint call; each thread replayed against the model in '
+         'lock-step, the global order checked against the session map, finality judged by the monitor which classifies a violation by the stale write that caused it; 200 random sequential histories '
+         'with logouts and replays of logged-out cookies.'},
     "C07": {
         "technique": "Coq proof (induction over rule/pattern lists and strings) of the trigger decision = documented function of the path component, for all rule sets, targets and regex engines; correspondence: exhaustive small-alphabet targets x rule sets through ExtAuthZFilter.Check, evaluated against model and an independent monitor by coqc vm_compute",
         "text": "Machine-checked theorems (C07_trigger_spec, C07_query_irrelevant, C07_path_split; closed under the global context) over a model of GetPathQueryFragment/stringMatch/matchTriggerRule/mustTriggerCheck, for ALL rule sets and ALL byte strings. The model is tied to the code on every run by running ExtAuthZFilter.Check of the current tree on every target over {/,a,b,.,?,#} up to length 5 (6 in thorough) for dozens of rule sets (all four match kinds, regex from a sub-grammar) and comparing with the model and with an independently written boolean spec inside Coq.",
